@@ -133,6 +133,14 @@ def lineOf (s : Str) (pos : Nat) : Option Str :=
 /-- `Span::new` succeeds iff `input.get(start..end)` does. -/
 def spanNew (s : Str) (a b : Nat) : Bool := (slice? s a b).isSome
 
+/-- `Span::get(x..y)` of the span `[a, b)` of `s`: the sub-range is taken in the span's OWN text (`self.as_str().get(x..y)`),
+the result has offsets `a + x`, `a + y` in `s`. -/
+def spanGet (s : Str) (a b x y : Nat) : Option (Nat × Nat) :=
+  match slice? s a b with
+  | some own => if spanNew own x y then some (a + x, a + y) else none
+  | none => none
+
+
 /-- `LinesSpan::next` iterated (fuel = input length + 1: every step moves `pos` forward). -/
 def linesSpanGo (s : Str) (spanEnd : Nat) : Nat → Nat → List (Nat × Nat)
   | 0, _ => []
